@@ -509,6 +509,54 @@ func vfC11ObjectHeaderV1(c *vfC11Ctx) {
 	}
 }
 
+// vfC11MessageTypeSweep: every message type code of the format (0x00..0x18; the continuation
+// message 0x10 is left out: its body is an instruction to the reader, not content) is carried
+// through a version 1 and a version 2 header between two other messages, with bodies of 8 and
+// 16 bytes; the decoder must hand back what was written whatever the type code says.
+func vfC11MessageTypeSweep(c *vfC11Ctx) {
+	c.begin("ohdr-message-types")
+	for _, ver := range []uint8{1, 2} {
+		sb, addr := vfC11SB(2, 8, 8), 64
+		if ver == 1 {
+			sb, addr = vfC11SB(0, 8, 8), 96
+		}
+		for t := 0; t <= 0x18; t++ {
+			if t == 0x10 {
+				continue
+			}
+			for _, pos := range []int{0, 1, 2} {
+				for _, size := range []int{8, 16} {
+					det := map[string]any{"header_version": ver, "message_type": fmt.Sprintf("%#02x", t), "position": pos, "body_bytes": size}
+					c.one(fmt.Sprint(ver, t, pos, size), det, func() bool {
+						body := make([]byte, size)
+						for j := range body {
+							body[j] = byte(0x21 + j)
+						}
+						msgs := []MessageWriter{{Type: MsgDataspace, Data: []byte{2, 0, 0, 0, 0, 0, 0, 0}}, {Type: MsgDatatype, Data: []byte{0x10, 8, 0, 0, 4, 0, 0, 0}}}
+						x := MessageWriter{Type: MessageType(t), Data: body}
+						msgs = append(msgs[:pos], append([]MessageWriter{x}, msgs[pos:]...)...)
+						ohw := &ObjectHeaderWriter{Version: ver, RefCount: 1, Messages: msgs}
+						m := &vfC11Mem{}
+						if _, err := ohw.WriteTo(m, uint64(addr)); err != nil {
+							return true
+						}
+						m.b = append(m.b, make([]byte, 64)...)
+						oh, err := ReadObjectHeader(m, uint64(addr), sb)
+						if err != nil {
+							c.fail("read-error/"+vfC11Norm(err), det)
+							return false
+						}
+						if d := vfC11CmpMsgs(msgs, oh.Messages); d != "" {
+							c.fail(d, det)
+						}
+						return false
+					})
+				}
+			}
+		}
+	}
+}
+
 // ---------------------------------------------------------------- dataspace
 
 func vfC11DimVectors(rank int, vals []uint64, full int) [][]uint64 {
@@ -1751,6 +1799,7 @@ func TestVerif_C11(t *testing.T) {
 	vfC11Superblock(c)
 	vfC11ObjectHeaderV2(c)
 	vfC11ObjectHeaderV1(c)
+	vfC11MessageTypeSweep(c)
 	vfC11Dataspace(c)
 	vfC11Layout(c)
 	vfC11Datatypes(c)
